@@ -211,6 +211,11 @@ def m3(ck, em, rng, nscn, seeds=None):
         r = np.random.RandomState(seed)
         C, D, Rt = int(r.randint(1, 4)), int(r.randint(1, 4)), int(r.randint(1, 4))
         U, K = int(r.randint(2, 9)), int(r.randint(3, 7))
+        tiny = None
+        if r.rand() < 0.2:
+            # a high-dimensional total-variability space and a component with little (but positive) data
+            C, Rt, U, K = max(C, 2), int(r.choice([8, 20, 40])), int(r.randint(10, 40)), int(r.randint(6, 10))
+            tiny = int(r.randint(0, C))
         upd = bool(r.rand() < 0.6)
         floor = [1e-10, 1e-10, 0.3, 0.8][r.randint(0, 4)]
         zero_comp = int(r.randint(0, C)) if (C > 1 and r.rand() < 0.25) else None
@@ -222,11 +227,49 @@ def m3(ck, em, rng, nscn, seeds=None):
         ubm.variances = var.copy()
         w = r.dirichlet(np.ones(C) * 3)
         ubm.weights = w
-        stats = random_stats(r, em, ubm, means, U, zero_comp, direct)
-        gs = [iv.make_stats(em, *st) for st in stats]
+        if tiny is not None:
+            zero_comp, direct = None, True
+        structured = tiny is not None and r.rand() < 0.5
+        if structured:
+            # utterances generated from a true total-variability matrix (strong signal, few frames each) and a
+            # tight component that every utterance occupies only fractionally: EM runs long before it settles
+            D, U, K = int(r.randint(8, 21)), int(r.randint(40, 70)), 12
+            upd = bool(r.rand() < 0.3)
+            floor = 1e-10
+            means = r.normal(size=(C, D)) * 3
+            var = r.uniform(0.5, 2.0, size=(C, D))
+            var[tiny] *= 0.1
+            ubm = em.GMMMachine(C)
+            ubm.means, ubm.variances, ubm.weights = means.copy(), var.copy(), np.full(C, 1.0 / C)
+            Ttrue = r.normal(size=(C, D, Rt)) * 3
+            rare = 10.0 ** r.uniform(-3.2, -2.3)
+            stats = []
+            for _ in range(U):
+                wv = r.normal(size=Rt)
+                n = r.uniform(1.0, 3.0, size=C)
+                n[tiny] = rare * r.uniform(0.5, 1.5)
+                mu = means + Ttrue @ wv
+                v = r.uniform(0.5, 1.5, size=(C, D))
+                stats.append((n, n[:, None] * mu, n[:, None] * (v + mu * mu)))
+        else:
+            stats = random_stats(r, em, ubm, means, U, zero_comp, direct)
         T0 = r.normal(size=(C, D, Rt))
+        if tiny is not None and not structured:
+            if r.rand() < 0.6:
+                # warm start: T fitted for a few iterations while the component still had ordinary counts
+                warm = iv.make_machine(em, means, T0, var, Rt, floor, False)
+                gw = [iv.make_stats(em, *st) for st in stats]
+                for _ in range(3):
+                    m_step(warm, e_step(warm, gw))
+                if np.all(np.isfinite(warm.T)):
+                    T0 = np.array(warm.T, dtype=float)
+            eps = 10.0 ** r.uniform(-4, -2)
+            stats = [(np.where(np.arange(C) == tiny, n * eps, n), np.where((np.arange(C) == tiny)[:, None], f * eps, f),
+                      np.where((np.arange(C) == tiny)[:, None], s_ * eps, s_)) for n, f, s_ in stats]
+        gs = [iv.make_stats(em, *st) for st in stats]
         me = {"seed": seed, "C": C, "D": D, "dim_t": Rt, "n_stats": U, "K": K, "update_sigma": upd,
-              "variance_floor": floor, "component_without_data": zero_comp,
+              "variance_floor": floor, "component_without_data": zero_comp, "component_with_tiny_occupancy": tiny,
+              "structured": bool(structured),
               "stats": "set directly (fractional responsibilities)" if (direct or zero_comp is not None) else "ubm.acc_stats"}
 
         def event(k, rank, T, sg):
